@@ -413,10 +413,11 @@ class CachedFcn(UserFcn):
             )
         ):
             return self.lastReturn
+        result = super().__call__(*args, **kwds)
         self.lastArgs = args
         self.lastKwds = kwds
-        self.lastReturn = super().__call__(*args, **kwds)
-        return self.lastReturn
+        self.lastReturn = result
+        return result
 
     def __repr__(self):
         return f"CachedFcn({self.expr}, {self.name})"
